@@ -54,9 +54,9 @@ def norm_token(tok, kind, labels):
     plain, qual = enum_maps()
     if isa.REG.match(tok) or isa.DEV.match(tok):
         return tok
-    if tok.startswith('HASH("') and tok.endswith('")'):
+    if (tok.startswith('HASH("') and tok.endswith('")')) or (tok.startswith("HASH('") and tok.endswith("')")):
         return float(c16.crc32_signed(tok[6:-2]))
-    if tok.startswith('STR("') and tok.endswith('")'):
+    if (tok.startswith('STR("') and tok.endswith('")')) or (tok.startswith("STR('") and tok.endswith("')")):
         return float(strpack(tok[5:-2]))
     if tok.startswith("$"):
         return float(int(tok[1:], 16))
@@ -106,7 +106,8 @@ def check_pair(srcs, base, stats=None, family=""):
     if stats is not None:
         stats.evaluations += 1
     if ("error" in v) != ("error" in c):
-        raise Violation("C08:compact-changes-acceptance", {"verbose": oracle.public(v), "compact": oracle.public(c), "opts": base})
+        why = oracle.norm_error((v.get("error") or c.get("error"))["description"]).split(": ")[0]
+        raise Violation("C08:compact-changes-acceptance:" + why, {"verbose": oracle.public(v), "compact": oracle.public(c), "opts": base})
     if "error" in v:
         if stats is not None:
             stats.discarded["reject:" + oracle.norm_error(v["error"]["description"])] += 1
@@ -135,7 +136,8 @@ def check_pair(srcs, base, stats=None, family=""):
 name_text = st.one_of(
     st.text(alphabet=st.characters(min_codepoint=32, max_codepoint=126, blacklist_characters='"'), min_size=1, max_size=16),
     st.text(alphabet=st.characters(blacklist_categories=["Cs", "Cc"], blacklist_characters='"  \x85'), min_size=1, max_size=8),
-    st.sampled_from(["A", "Bank 1", "#1", "a # b", "  lead", "trail  ", "O2", "ÄÖ", "x" * 30, "update", "r0", "HASH", "12", "-5", "$FF", "a\\b", "'q'"]),
+    st.sampled_from(["A", "Bank 1", "#1", "a # b", "  lead", "trail  ", "O2", "ÄÖ", "x" * 30, "update", "r0", "HASH", "12", "-5", "$FF", "a\\b", "'q'",
+                     "Storage Tank", "Pump (2)", "Sensor", "(x)", "Test", "STR", "abc)", "HASH(", "SH", "AAA", "S", "H)", "Heater (A)"]),
 )
 str_text = st.text(alphabet=st.characters(min_codepoint=32, max_codepoint=126, blacklist_characters='"'), min_size=1, max_size=6)
 _structs = None
@@ -157,7 +159,7 @@ def string_programs(draw):
     n = draw(st.integers(1, 8))
     ss = struct_names()
     for i in range(n):
-        k = draw(st.integers(0, 9))
+        k = draw(st.integers(0, 12))
         sing, plur = ss[draw(st.integers(0, len(ss) - 1))]
         s = draw(name_text)
         if k == 0:
@@ -181,8 +183,25 @@ def string_programs(draw):
             L.append(f"db.Setting = x{i}")
         elif k == 8:
             L.append(f"d1.Setting = {draw(st.sampled_from(['Color.Red', 'SortingClass.Ores', 'DisplayMode.Celsius', 'GasType.PollutedWater', 'SlotClass.Battery', 'Sound.Alarm2']))}")
-        else:
+        elif k == 9:
             L.append(f"db.Setting = {sing}(d1).PrefabHash if d0.On > 0 else HASH({s!r})")
+        elif k == 10:
+            # arithmetic on a hash / string constant: folded in verbose mode from the symbolic spelling,
+            # in compact mode from the number
+            op = draw(st.sampled_from(["+ 1", "% 16", "- 3", "* 2", "& 255", ">> 2"]))
+            L.append(f"db.Setting = HASH({s!r}) {op}")
+            L.append(f"h{i} = HASH({s!r})")
+            L.append(f"d1.Setting = -h{i} + d0.Setting")
+        elif k == 11:
+            # raw string operands of intrinsics are emitted as they are (README: intrinsics example)
+            q = draw(st.sampled_from(["'", '"']))
+            nm = draw(st.sampled_from(["StructureBattery", "StructureWallLight", "Main Battery", "A", "Sensor (1)"]))
+            raw = f"HASH({q}{nm}{q})"
+            L.append(f"x{i} = lbn({raw!r}, HASH({s!r}), LogicType.Ratio, LogicBatchMethod.Average)")
+            L.append(f"db.Setting = x{i}")
+            L.append(f"sb({raw!r}, LogicType.On, 1)")
+        else:
+            L.append(f"db.Setting = STR({draw(str_text)!r}) + 1")
     base = {"remove_labels": draw(st.booleans()), "inline_functions": draw(st.booleans())}
     return {"src": {"": "\n".join(L) + "\n"}, "opts": base, "family": "strings"}
 
